@@ -112,6 +112,40 @@ def nonzeroOp (j : Json) : R Json := do
   let xs ← fld j "norms" >>= asList asFloat
   pure (ofList ofFloat (xs.map nonzero))
 
+/-- round 4: a session — several calls on ONE object.  Every call is answered by the op of its function on
+    the state the earlier calls left (`runSessionG` with `callEffect`, i.e. with the write counts read off
+    the source); the answer carries the state after each call. -/
+def sessionOp (j : Json) : R Json := do
+  let rows ← fld j "rows" >>= asList (asList (asOpt asFloat))
+  let cjs ← fld j "calls" >>= asList (fun c => (pure c : R Json))
+  let calls ← cjs.mapM fun cj => do
+    let fnS ← fld cj "fn" >>= asStr
+    let effS ← asStr (fldD cj "effect" (Json.str fnS))
+    let m : Method := match (fld cj "method" >>= asMethod) with
+      | .ok m => m
+      | .error _ => .rhoA          -- pool_rdm for the tau measures ranks like rho-a; euclid: see below
+    let plain := fnS == "poolonly" && (match fld cj "norm" >>= asStr with | .ok "none" => true | _ => false)
+    match Fn.ofString? effS with
+    | some f => pure ((({ fn := f, m := m } : Call), plain), fnS, cj)
+    | none => throw s!"unknown function {effS}"
+  let eff : ((Call × Bool) × String × Json) → List (List (Option Float)) → List (List (Option Float)) :=
+    -- the plain mean (euclid / neg_riem_dist) has no normalisation step that could run in place
+    fun c s => if c.1.2 then s else callEffect c.1.1 s
+  let result : ((Call × Bool) × String × Json) → List (List (Option Float)) → R Json := fun c s =>
+    let cj := c.2.2.setObjVal! "rows" (ofList (ofList (ofOpt ofFloat)) s)
+    match c.2.1 with
+    | "cv" => cvOp cj
+    | "poolonly" => poolOnlyOp cj
+    | "evalfixed" => do
+        let b ← bootOp cj
+        let sc ← scoreOp cj
+        pure (obj [("boot", b), ("score", sc)])
+    | _ => bootOp cj
+  let out ← (runSessionG eff result calls rows).mapM fun rs => do
+    let r ← rs.1
+    pure (obj [("res", r), ("state", ofList (ofList (ofOpt ofFloat)) rs.2)])
+  pure (Json.arr out.toArray)
+
 def handle : Handler := fun op j =>
   match op with
   | "c07.nonzero" => some (nonzeroOp j)
@@ -119,6 +153,7 @@ def handle : Handler := fun op j =>
   | "c07.boot" => some (bootOp j)
   | "c07.cv" => some (cvOp j)
   | "c07.score" => some (scoreOp j)
+  | "c07.session" => some (sessionOp j)
   | _ => none
 
 end Rsa.Drv.C07
